@@ -166,7 +166,7 @@ impl MState {
     }
 }
 
-fn tx_power_values(region: &str, idx: u8) -> Vec<Option<u8>> {
+pub fn tx_power_values(region: &str, idx: u8) -> Vec<Option<u8>> {
     let mut v = vec![];
     for e in rr::max_eirp(region) {
         let p = e - 2 * idx as i16;
